@@ -726,8 +726,8 @@ def explore(ctx):
     res = Result()
     res.rule = RULE
     core.import_typelib()
-    n_children = ctx.n(6, 60)
-    n_random = 150 if ctx.tier == "quick" else 400
+    n_children = ctx.n(10, 80)
+    n_random = 300 if ctx.tier == "quick" else 600
     fixed = fixed_descs()
     jobs = []
     for _ in range(n_children):
